@@ -118,7 +118,7 @@ PROPS = {
                         "process address space limited to 6 GB by the driver (RLIMIT_AS); per-process timeout"],
     },
     "C14": {
-        "level": "exploration", "quick": 5000, "thorough": 50000, "batch": 1, "single_timeout": 120,
+        "level": "exploration", "quick": 15000, "thorough": 200000, "batch": 10, "single_timeout": 120,
         "rule": ("2-3 writer tasks (each the only writer of its KV keys, vectors and metadata versions; every value carries a monotone version), "
                  "1-2 admin tasks issuing SaveSnapshot / RewriteAOF (overlapping when two admins) / Flush / Sync / forced vacuum, an optional task that "
                  "calls Close at a random point, optional tiny auto-save policy, all run by the cooperative scheduler: every lock operation and every "
@@ -141,7 +141,7 @@ PROPS = {
                  "no stall (40 simulated seconds without an enabled task) with lock holders and stacks reported; every mutating call invoked after Close "
                  "returned gets an error; _access_count of the shared node within [acknowledged, issued] reinforcements, live and after restart; every "
                  "acknowledged metadata key present; KV history linearizable (porcupine, call/return = global event sequence numbers, <=200 ops, Unknown "
-                 "= inconclusive). A quarter of the seeds also run in the -race build, twice: under the cooperative scheduler, and FREE-RUNNING (same task "
+                 "= inconclusive). One seed in twenty also runs in the -race build, twice: under the cooperative scheduler, and FREE-RUNNING (same task "
                  "programs as real goroutines on 4 Ps, real clock, no simulator, randomised yields at op boundaries - the property's own quantifier names the Go "
                  "scheduler under the race detector); the free-running tier is the one that sees races and lock-order deadlocks between tasks, its schedules are "
                  "not the simulator's and do not replay. Non-trivial: >=6 recorded ops and >10 grants; distinct = task programs + hash of the grant sequence."),
@@ -150,7 +150,7 @@ PROPS = {
                         "decision points exist only at rewritten lock operations and file calls"],
     },
     "C12": {
-        "level": "exploration", "quick": 6000, "thorough": 60000, "batch": 1, "single_timeout": 150,
+        "level": "exploration", "quick": 30000, "thorough": 300000, "batch": 10, "single_timeout": 150,
         "rule": ("a graph over 5 vector nodes (incoming, outgoing, inverse and self edges) is built and synced; then 1-2 deleter tasks (VDelete of "
                  "1-3 nodes), a linker task creating further edges (also to nodes being deleted), optional snapshot/compaction/flush noise and an "
                  "optional Close at a random point run under the cooperative scheduler: the cascade goroutine of every delete is an internal task "
@@ -277,21 +277,22 @@ PROPS = {
 
 # Extensions made after the seeded-change rounds (DESIGN.md 10.6): appended to the rule texts above.
 RULE_ADDENDA = {
+    "C04": "On memory-enabled indexes generated metadata may carry a _created_at supplied by the owner: add, batch add and import all store it unchanged.",
     "C01": "Generator scripts: a drop directly after a snapshot, re-creation of a dropped name with another precision or dimension and immediate use; unlink prefers edges that exist, with the inverse they were created with.",
     "C02": "After recovery the repaired directory keeps being used: something recovered is deleted, then RewriteAOF or SaveSnapshot runs, then restart (nothing a crash left behind may leak into the new files). Generator scripts as C01, plus delete-then-vacuum with no flush in between and an image right after every forced maintenance.",
-    "C03": "Arguments larger than the parser's 4096-byte buffer in the codec half; after the first recovery the same directory is recovered a second time and must give the same keys and vectors (the repair of the file must not cost intact commands).",
-    "C05": "Rejected deletes/metadata updates also target graph-only entities (ids with edges but no vector).",
+    "C03": "Arguments larger than the parser's 4096-byte buffer in the codec half; after the first recovery the same directory is recovered a second time and must give the same keys and vectors (the repair of the file must not cost intact commands). Decimal (legacy) vector components are compared bit for bit, sign of zero included.",
+    "C05": "Rejected deletes/metadata updates also target graph-only entities (ids with edges but no vector). Rejected batches (a duplicate id that is not the first item, an id repeated inside the batch) also go through VImport (per-item path below its batch threshold, parallel path above).",
     "C06": "A third of the queries are text or hybrid (explicit text query, alpha 0..1, optionally no vector) combined with filter and graph scope; for those the universal negatives are judged, not the score.",
-    "C08": "Values that change type but not printed form (1 <-> \"1\"), vectors without any metadata.",
+    "C08": "Values that change type but not printed form (1 <-> \"1\"), vectors without any metadata. Numeric values and range literals include ones a float32 cannot hold (0.1, 0.3, 2^24+1, Unix timestamps): comparisons are judged in float64.",
     "C09": "Documents that analyse to zero tokens; hybrid queries with k from 1 to 50 (a document outside the vector leg's k nearest may be fused with vector share 0; a tie at that boundary may go either way); score tolerance by precision class.",
     "C11": "Unlink prefers existing edges with their inverse; half of the runs restart / snapshot / compact before the query phase.",
-    "C12": "Half of the runs give the index a graph retention and run a graph vacuum before the deletes (and among the admin operations).",
-    "C13": "Text-indexed metadata and hybrid searches; reinforcement of nodes other tasks delete, with the oracle that an id whose delete was acknowledged is gone for the metadata indexes (VFilter) too; a third of the runs have an automatic snapshot due at every housekeeping tick.",
-    "C14": "Bursts of 1100-2600 writes (more than the log writer's 1000-entry buffer) followed at once by Flush or Sync.",
-    "C15": "Memories are also inserted through VAddBatch and VImport (supplied _created_at must be stored unchanged); _access_count seeded as float64, int or int64; a quarter of the runs leave the global half-life at 0 (layers only / documented 7-day default) with creation times spread over weeks.",
-    "C16": "Path-addressed routes (/config, /maintenance, /auto-links) carry a decoy index_name in the body; graph routes address nodes as <other index>::v1; link targets whose id names the index make cross-namespace graph reads visible.",
-    "C17": "A quarter of the runs use a memory-enabled (time-decaying) forbidden-prompt index whose entries are 30 days old: the firewall compares distances, not decayed scores.",
-    "C19": "Mutation 'unknown id' (one id of the request names nothing while the others exist); /config route with duration fields (wrong type = bool, array or object; string and number are both documented); index names with interior '..'.",
+    "C12": "Half of the runs give the index a graph retention and run a graph vacuum before the deletes (and among the admin operations). A third of the runs unlink some edges again before anything is deleted, half of them physically (hard unlink, the non-default option).",
+    "C13": "Text-indexed metadata and hybrid searches; reinforcement of nodes other tasks delete, with the oracle that an id whose delete was acknowledged is gone for the metadata indexes (VFilter) too; a third of the runs have an automatic snapshot due at every housekeeping tick. Every client adds and deletes two shared ids (a third of the runs: all clients start by adding the same new id): adds and deletes of an id must have a serial order in which an add succeeds exactly on an absent id (porcupine), and the id never holds the data of an add that was refused, live or after restart. 'delq' deletes an own vector and looks at once (VFilter, filtered VSearch, VGet) without letting the background cascade run first. A third of the runs give the hot index an auto-link rule (inserts link themselves while snapshots are requested). After the run has settled: every id listed once by the cursor and readable, the entry point exists, and - when the index holds at most 2*M nodes, C07's exact regime - every live vector is found by its own value.",
+    "C14": "Bursts of 1100-2600 writes (more than the log writer's 1000-entry buffer) followed at once by Flush or Sync. Writers also insert batches of 1-48 vectors with metadata (every item and its metadata is one acknowledged write).",
+    "C15": "Memories are also inserted through VAddBatch and VImport (supplied _created_at must be stored unchanged); _access_count seeded as float64, int or int64; a quarter of the runs leave the global half-life at 0 (layers only / documented 7-day default) with creation times spread over weeks. _access_count may be negative (-1..-4; only the bounds 0 <= factor <= 1 and 'never NaN' are judged for ebbinghaus there). Half of the memories carry a text field; hybrid queries (text + vector, k=2, alpha 0.2) must not score any memory above its decay factor.",
+    "C16": "Path-addressed routes (/config, /maintenance, /auto-links) carry a decoy index_name in the body; graph routes address nodes as <other index>::v1; link targets whose id names the index make cross-namespace graph reads visible. Restart history 'crash': a token is revoked and the data directory is copied the moment the 200 arrives (no simulated time passes); the server restarted on the copy must reject the token.",
+    "C17": "A quarter of the runs use a memory-enabled (time-decaying) forbidden-prompt index whose entries are 30 days old: the firewall compares distances, not decayed scores. A quarter of the chat steps are followed at once by a second request (no time for the asynchronous cache save in between; a save that may not have happened yet makes the next lookup undetermined, nothing else); deny patterns that open with a group or an inline flag, with mixed-case prompts.",
+    "C19": "Mutation 'unknown id' (one id of the request names nothing while the others exist); /config route with duration fields (wrong type = bool, array or object; string and number are both documented); index names with interior '..'. The export route gets paging parameters in the URL (huge, negative, non-numeric limit/offset).",
 }
 for _k, _v in RULE_ADDENDA.items():
     PROPS[_k]["rule"] = PROPS[_k]["rule"] + " EXTENSIONS: " + _v
@@ -351,7 +352,7 @@ MANIFEST_TEXT = {
         "technique": "deterministic simulation: cooperative scheduler over the cascade goroutine + Close injection + disk-event crash images, dangling-edge oracle over all graph views",
     },
     "C13": {
-        "text": "Seeded search over schedules of mixed client, admin, subscriber and Close tasks under the cooperative scheduler, with a stall detector (deadlock), process-death detection (panic/fatal/SIGSEGV), per-item counting oracles (reinforcements, metadata merges), a linearizability check of the KV history (porcupine) and clean-failure-after-Close; a quarter of the seeds are repeated in the -race build, under the scheduler and free-running.",
+        "text": "Seeded search over schedules of mixed client, admin, subscriber and Close tasks under the cooperative scheduler, with a stall detector (deadlock), process-death detection (panic/fatal/SIGSEGV), per-item counting oracles (reinforcements, metadata merges), linearizability checks of the KV history and of the add/delete history of shared vector ids (porcupine), delete-then-look without settling, refused inserts that must never take effect (live and after restart), exactness of search on a small index after the concurrent history, and clean-failure-after-Close; one seed in twenty is repeated in the -race build, under the scheduler and free-running.",
         "design_ref": "DESIGN.md section 6 C13, section 2.3",
         "note": "Schedules are sampled, not enumerated. Lock-free code between two decision points is atomic to the scheduler. The data-race clause is decided by the free-running -race tier (real goroutines, real clock), which is observation of uncontrolled executions and is labelled so; a race it reports comes with the detector's two stacks and the seed of the task programs, not with a replayable schedule.",
         "technique": "deterministic simulation: cooperative lock/IO scheduler (PCT) + stall detector + porcupine linearizability + per-item counting oracles; plus -race build of the same programs under the scheduler and free-running (Go scheduler, 4 Ps)",
